@@ -1246,3 +1246,194 @@ Proof.
   - unfold classify. rewrite Hh. cbn [regp]. rewrite Hr. reflexivity.
   - unfold classify. rewrite Hh. cbn [regp]. rewrite Hr. rewrite (Hat op c rest eq_refl). reflexivity.
 Qed.
+
+(* ============================================================================================ *)
+(* sufficient fuel: with fuel above the nesting depth no level of the model runs out of fuel,
+   so the outcomes compared by repeat_unroll are real outcomes *)
+Lemma bind_nf {A B} (r : res A) (k : A -> res B) :
+  r <> OutOfFuel -> (forall x, k x <> OutOfFuel) -> bind r k <> OutOfFuel.
+Proof. intros H K. destruct r; simpl; auto; discriminate. Qed.
+
+Ltac op_nf :=
+  unfold GenOperators.body_postadd, GenOperators.body_postsub, GenOperators.body_pos, GenOperators.body_neg,
+    GenOperators.body_inv, GenOperators.body_inv2, GenOperators.body_mul, GenOperators.body_div, GenOperators.body_mod,
+    GenOperators.body_add, GenOperators.body_sub, GenOperators.body_lshift, GenOperators.body_rshift, GenOperators.body_lsh,
+    GenOperators.body_and_, GenOperators.body_xor, GenOperators.body_or_, GenOperators.body_or2,
+    GenOperators.body_immediate, GenOperators.body_deferred, GenOperators.body_register, GenOperators.body_call,
+    GenOperators.catch_zde, GenOperators.py_floordiv, GenOperators.py_mod, GenOperators.py_lshift, GenOperators.py_rshift,
+    GenOperators.py_pow, GenOperators.py_assert, bind;
+  repeat match goal with |- context [if ?c then _ else _] => destruct c end;
+  simpl; discriminate.
+
+Lemma invoke_infix_nf op args : invoke_infix op args <> OutOfFuel.
+Proof.
+  unfold invoke_infix, GenOperators.infix_body.
+  repeat match goal with |- context [if String.eqb ?a ?b then _ else _] => destruct (String.eqb a b) end;
+    destruct args as [|a [|b [|c r]]]; try discriminate; op_nf.
+Qed.
+Lemma invoke_prefix_nf op args : invoke_prefix op args <> OutOfFuel.
+Proof.
+  unfold invoke_prefix, GenOperators.prefix_body.
+  repeat match goal with |- context [if String.eqb ?a ?b then _ else _] => destruct (String.eqb a b) end;
+    destruct args as [|a [|b r]]; try discriminate; op_nf.
+Qed.
+Lemma invoke_postfix_nf op args : invoke_postfix op args <> OutOfFuel.
+Proof.
+  unfold invoke_postfix, GenOperators.postfix_body.
+  repeat match goal with |- context [if String.eqb ?a ?b then _ else _] => destruct (String.eqb a b) end;
+    destruct args as [|a [|b r]]; try discriminate; op_nf.
+Qed.
+
+Lemma use_cache_nf pure c args inv : (forall a, inv a <> OutOfFuel) -> use_cache pure c args inv <> OutOfFuel.
+Proof.
+  intros H. unfold use_cache. specialize (H args).
+  destruct pure; [destruct (inv args); simpl; congruence|].
+  destruct c as [[a0 v0]|]; [destruct (zl_eqb a0 args); [discriminate|]|]; destruct (inv args); simpl; congruence.
+Qed.
+
+Lemma eval_nf env dot t : eval env dot t <> OutOfFuel.
+Proof.
+  induction t; cbn [eval].
+  - destruct (bad8 && negb reported); discriminate.
+  - destruct evaluated; discriminate.
+  - destruct (if nec_label then None else reg_of_name name); [discriminate|]. destruct (env name); discriminate.
+  - discriminate.
+  - apply bind_nf; [exact IHt|]. intros [[? ?] ?]. discriminate.
+  - apply bind_nf; [exact IHt1|]. intros [[? ?] ?]. apply bind_nf; [exact IHt2|]. intros [[? ?] ?].
+    apply bind_nf; [apply use_cache_nf; apply invoke_infix_nf|]. intros [[? ?] ?]. discriminate.
+  - apply bind_nf; [exact IHt|]. intros [[? ?] ?].
+    apply bind_nf; [apply use_cache_nf; apply invoke_prefix_nf|]. intros [[? ?] ?]. discriminate.
+  - apply bind_nf; [exact IHt|]. intros [[? ?] ?].
+    apply bind_nf; [apply use_cache_nf; apply invoke_postfix_nf|]. intros [[? ?] ?]. discriminate.
+  - apply bind_nf; [exact IHt1|]. intros [[? ?] ?]. apply bind_nf; [exact IHt2|]. intros [[? ?] ?].
+    apply bind_nf; [apply use_cache_nf; apply invoke_infix_nf|]. intros [[? ?] ?]. discriminate.
+Qed.
+
+Lemma get_as_int_nf bits uns v : GenGetAsInt.get_as_int bits uns None v <> OutOfFuel.
+Proof. unfold GenGetAsInt.get_as_int. destruct (GenGetAsInt.get_as_int_raw bits uns None v); discriminate. Qed.
+
+Lemma gai_nf bits uns env dot t : gai bits uns env dot t <> OutOfFuel.
+Proof.
+  unfold gai. apply bind_nf; [apply eval_nf|]. intros [[? ?] ?].
+  apply bind_nf; [apply get_as_int_nf|]. intros; discriminate.
+Qed.
+
+Lemma compile_slot_nf env dot rel s t : compile_slot env dot rel s t <> OutOfFuel.
+Proof.
+  destruct s; simpl.
+  - unfold compile_rm. destruct (has_percent t); [discriminate|].
+    destruct (classify t) as [[[m k] p] h]. destruct k; try discriminate.
+    + apply bind_nf; [apply gai_nf|]. intros [[? ?] ?]. discriminate.
+    + apply bind_nf; [apply eval_nf|]. intros [[? ?] ?]. discriminate.
+  - unfold compile_reg. destruct (is_percent t); [discriminate|]. destruct (regp t); discriminate.
+  - unfold compile_br. apply bind_nf; [apply eval_nf|]. intros [[? ?] ?].
+    destruct (offset_field bits uns (z - rel)). discriminate.
+  - assert (G : forall x, (do y <- eval env dot x; let '(v, t', d) := y in
+                           let '(f, d2) := imm_field bits uns v in Ok (f, ([] : list Z), t', d ++ d2)) <> OutOfFuel).
+    { intros x. apply bind_nf; [apply eval_nf|]. intros [[? ?] ?]. destruct (imm_field bits uns z). discriminate. }
+    unfold compile_imm. destruct t; try apply G.
+    destruct (op =? "#")%string; [|apply G].
+    apply bind_nf; [apply eval_nf|]. intros [[? ?] ?]. destruct (imm_field bits uns z). discriminate.
+Qed.
+
+Lemma compile_ops_nf env dot : forall ops n, compile_ops env dot n ops <> OutOfFuel.
+Proof.
+  induction ops as [|[s t] r IH]; intros n; cbn [compile_ops]; [discriminate|].
+  apply bind_nf; [apply compile_slot_nf|]. intros [[[? ?] ?] ?].
+  apply bind_nf; [apply IH|]. intros [[[? ?] ?] ?]. discriminate.
+Qed.
+
+Lemma cook_nf bits uns env dot : forall ts, cook bits uns env dot ts <> OutOfFuel.
+Proof.
+  induction ts as [|t r IH]; cbn [cook]; [discriminate|].
+  pose proof (eval_nf env dot t) as E. destruct (eval env dot t) as [[[v t'] d]| | |]; try discriminate; [|congruence].
+  pose proof (get_as_int_nf bits uns v) as G. destruct (GenGetAsInt.get_as_int bits uns None v); try discriminate; [|congruence].
+  apply bind_nf; [exact IH|]. intros [[? ?] ?]. discriminate.
+Qed.
+
+(* rec never runs out of fuel on bodies of depth < d and returns bodies of the same depth *)
+Definition fuel_ok (rec : list item -> Z -> result) (d : nat) : Prop :=
+  forall b a, (depth b < d)%nat ->
+    match rec b a with OutOfFuel => False | Ok (_, b', _) => depth b' = depth b | _ => True end.
+
+Lemma loop_fuel rec d : fuel_ok rec d -> forall n, fuel_ok (loop rec n) d.
+Proof.
+  intros H. induction n as [|k IH]; intros b a Hd; cbn [loop]; [reflexivity|].
+  specialize (H b a Hd). destruct (rec b a) as [[[bs b'] d1]| | |]; cbn [bind]; auto.
+  assert (Hd' : (depth b' < d)%nat) by (rewrite H; exact Hd).
+  specialize (IH b' (a + Zlen bs) Hd'). destruct (loop rec k b' (a + Zlen bs)) as [[[bs2 b''] d2]| | |]; cbn [bind]; auto.
+  congruence.
+Qed.
+
+Lemma depth_cons i r : depth (i :: r) = Nat.max (depth_item i) (depth r).
+Proof. reflexivity. Qed.
+
+Lemma item_fuel rec env d : fuel_ok rec d -> forall it a, (depth_item it <= d)%nat ->
+  match compile_item rec env a it with OutOfFuel => False | Ok (_, it', _) => depth_item it' = depth_item it | _ => True end.
+Proof.
+  intros H it a Hd. destruct it; cbn [compile_item].
+  - pose proof (cook_nf (Some 16) false env a ops) as C. destruct (cook (Some 16) false env a ops) as [[[ws ops'] d1]| | |]; cbn [bind]; auto.
+    destruct ws; reflexivity.
+  - pose proof (cook_nf (Some 8) false env a ops) as C. destruct (cook (Some 8) false env a ops) as [[[ws ops'] d1]| | |]; cbn [bind]; auto.
+    destruct ws; reflexivity.
+  - reflexivity.
+  - pose proof (compile_ops_nf env a ops 0) as C. destruct (compile_ops env a 0 ops) as [[[[opc exts] ops'] d1]| | |]; cbn [bind]; auto.
+  - pose proof (cook_nf None true env a [cnt]) as C. destruct (cook None true env a [cnt]) as [[[ws cnt'] d1]| | |]; cbn [bind]; auto.
+    assert (Hb : (depth body < d)%nat) by (simpl in Hd; fold (depth body) in Hd; exact Hd).
+    destruct ws as [[|n [|x r]]|]; try reflexivity.
+    pose proof (loop_fuel rec d H (Z.to_nat n) body a Hb) as L.
+    destruct (loop rec (Z.to_nat n) body a) as [[[bs body'] d2]| | |]; cbn [bind]; auto.
+    simpl. fold (depth body'). fold (depth body). congruence.
+  - reflexivity.
+Qed.
+
+Lemma block_fuel rec env d : fuel_ok rec d -> fuel_ok (block rec env) (S d).
+Proof.
+  intros H b. induction b as [|i r IH]; intros a Hd; [reflexivity|].
+  rewrite depth_cons in Hd.
+  assert (Hi : (depth_item i <= d)%nat) by (apply Nat.lt_succ_r; eapply Nat.le_lt_trans; [apply Nat.le_max_l | exact Hd]).
+  assert (Hr : (depth r < S d)%nat) by (eapply Nat.le_lt_trans; [apply Nat.le_max_r | exact Hd]).
+  assert (Step : match (do x <- compile_item rec env a i; let '(bs, it', d0) := x in
+                        do y <- block rec env r (a + Zlen bs); let '(bs2, rest', d2) := y in
+                        Ok (bs ++ bs2, it' :: rest', d0 ++ d2))
+                 with OutOfFuel => False | Ok (_, b', _) => depth b' = depth (i :: r) | _ => True end).
+  { pose proof (item_fuel rec env d H i a Hi) as I. destruct (compile_item rec env a i) as [[[bs it'] d0]| | |]; cbn [bind]; auto.
+    specialize (IH (a + Zlen bs) Hr). destruct (block rec env r (a + Zlen bs)) as [[[bs2 r'] d2]| | |]; cbn [bind]; auto.
+    rewrite !depth_cons. congruence. }
+  destruct i; try exact Step. reflexivity.
+Qed.
+
+Lemma compile_block_fuel env : forall f, fuel_ok (compile_block f env) f.
+Proof.
+  induction f as [|f IH].
+  - intros b a Hd. inversion Hd.
+  - cbn [compile_block]. apply block_fuel. exact IH.
+Qed.
+
+(* fuel_sufficient: with fuel S f and a body nested at most f deep, neither side of repeat_unroll
+   is the out-of-fuel outcome *)
+Lemma outcome_fuel r : outcome_of r = OFuel -> r = OutOfFuel.
+Proof. destruct r as [[[bs b] [|x d]]| | |]; simpl; intros H; try discriminate; reflexivity. Qed.
+
+Lemma depth_app x : forall y, depth (x ++ y) = Nat.max (depth x) (depth y).
+Proof.
+  induction x as [|i r IHx]; intros y; [reflexivity|].
+  cbn [app]. rewrite !depth_cons, IHx. apply Nat.max_assoc.
+Qed.
+
+Lemma depth_written_out n body : (depth (written_out n body) <= depth body)%nat.
+Proof.
+  unfold written_out. induction n as [|k IH]; cbn [repeat List.concat]; [apply Nat.le_0_l|].
+  rewrite depth_app. apply Nat.max_lub; [apply Nat.le_refl | exact IH].
+Qed.
+
+Lemma fuel_sufficient f env n body a : (depth body <= f)%nat ->
+  outcome_of (repeat_model (S f) env n body a) <> OFuel /\ outcome_of (unrolled (S f) env n body a) <> OFuel.
+Proof.
+  intros Hd. split; intros H; apply outcome_fuel in H.
+  - pose proof (loop_fuel _ (S f) (compile_block_fuel env (S f)) n body a (proj2 (Nat.lt_succ_r _ _) Hd)) as L.
+    unfold repeat_model in H. rewrite H in L. exact L.
+  - pose proof (compile_block_fuel env (S f) (written_out n body) a) as L.
+    unfold unrolled in H. rewrite H in L. apply L.
+    apply Nat.lt_succ_r. eapply Nat.le_trans; [apply depth_written_out | exact Hd].
+Qed.
